@@ -17,7 +17,8 @@ OBLIGATIONS = [
     "SkVerif.C03.cutoff_after_fit",
     "SkVerif.C03.cutoff_after_update",
     "SkVerif.C03.cutoff_after_update_empty",
-    "SkVerif.C03.cutoff_after_refit_update",
+    "SkVerif.C03.cutoff_after_refit_update_partial",
+    "SkVerif.C03.cutoff_after_refit_update_older_batch_witness",
     "SkVerif.C03.update_predict_single_index",
     "SkVerif.C03.shift_equivariance_step",
     "SkVerif.C03.shift_equivariance",
@@ -76,9 +77,11 @@ def oracle(c, out):
         if k == "fit" and r[0] == "ok":
             if cut != _last(op[1]):
                 fails.append((site + ":cutoff-after-fit", "cutoff %r after fit on series ending at %r" % (cut, _last(op[1]))))
-        if k == "upd" and r[0] == "ok" and op[1] and in_order:
+        if k == "upd" and r[0] == "ok" and op[1]:          # "after EVERY update": also for a batch of older / revised data
             if cut != _last(op[1]):
-                fails.append((site + ":cutoff-after-update", "cutoff %r after update with batch ending at %r" % (cut, _last(op[1]))))
+                older = op[2] and max_label is not None and _last(op[1]) < max_label     # refit + batch ending before known data
+                fails.append((site + ":cutoff-after-update" + (":refit-with-older-batch" if older else ""),
+                              "cutoff %r after update with batch ending at %r" % (cut, _last(op[1]))))
         # ---- prediction clauses
         # (after a REJECTED (re)fit the object is half-replaced -- new data, perhaps new horizon, old parameters; the
         #  statement speaks of fitted forecasters, so the clauses wait for the next successful fit; correspondence goes on)
@@ -340,6 +343,19 @@ def gen_cases(tier, rng):
     for name, (mode, _) in sorted(table.items()):
         for j in range(per):
             cases.append({"prop": PROP, "core": "opaque:" + name, "mode": mode, "ops": _history(rng, "opaque:" + name, mode),
+                          "shift": rng.choice([0, 7, 1000]) if j % 2 else 0, "range": rng.random() < 0.5})
+    for name, (mode, _) in sorted(table.items()):
+        for j in range(2 if quick else 8):
+            n0 = rng.randrange(10, 17)
+            st = rng.choice([0, 3, -30])
+            y0 = M.stretch(rng, st, n0, 0.0, True, 0.0)
+            c0 = y0[-1][0]
+            steps = sorted(rng.sample(range(2, 7), rng.choice([1, 2, 3])))       # all beyond the label the update brings
+            fit_fh = ["a", [c0 + s_ for s_ in steps]]
+            ops = [["fit", y0, fit_fh], ["upd", M.stretch(rng, c0 + 1, 1, 0.0, True, 0.0), bool(j % 2)], ["pred", None]]
+            if j % 4 == 3:
+                ops.insert(1, ["pred", None])
+            cases.append({"prop": PROP, "core": "opaque:" + name, "mode": mode, "ops": ops,
                           "shift": rng.choice([0, 7, 1000]) if j % 2 else 0, "range": rng.random() < 0.5})
     for cc in cases:
         cc.setdefault("other", rng.random() < 0.3)      # a second object of the same kind is used in between
